@@ -58,6 +58,9 @@ func c03Text(c *Ctx, stream, s string) {
 		c.OpK(stream, "spec.valid "+h, b01(ok), nt, "isdomain-vs-rfc")
 		if strings.HasPrefix(pk, "ok") {
 			c.Hit("text:valid")
+			// the printed form of a name denotes the same octets as the text it was printed from
+			pr := guard(func() string { return implPackName(dns.Name(s).String()) })
+			c.Pred(stream, "printed-name-denotes-same", h, pr == pk, pr, pk, nt)
 		} else {
 			c.Hit("text:invalid")
 		}
@@ -110,6 +113,7 @@ func labelsHex(w []byte) string {
 }
 
 func runC03(c *Ctx) {
+	defer c03DDDOverflow(c, c.R)
 	r := c.R
 	c.Res.Rule = "names from label lists (boundary-biased lengths, all octet classes), random spellings and mutated texts, bounded-exhaustive small-alphabet texts; non-trivial = at least two labels or an escape / wire longer than 3 octets; distinct by op line"
 	// 1. all 256 octets x first / middle / last position (exhaustive)
@@ -251,4 +255,33 @@ func genHostileNameMsg(r *Rng) []byte {
 		}
 	}
 	return msg
+}
+
+
+// c03DDDOverflow: \DDD spellings above 255 (the packer reads them as one octet, wrapped) next to octets that the printer
+// has to escape again
+func c03DDDOverflow(c *Ctx, r *Rng) {
+	n := c.Scale(600, 12000)
+	for i := 0; i < n; i++ {
+		var sb strings.Builder
+		for l, nl := 0, 1+r.Intn(3); l < nl; l++ {
+			for k, nk := 0, 1+r.Intn(5); k < nk; k++ {
+				switch r.Intn(6) {
+				case 0:
+					fmt.Fprintf(&sb, "\\%03d", 256+r.Intn(744))
+				case 1:
+					fmt.Fprintf(&sb, "\\%03d", r.Intn(256))
+				case 2:
+					sb.WriteByte('\\')
+					sb.WriteByte(";.\\ \"()@$"[r.Intn(9)])
+				case 3:
+					sb.WriteByte(byte(0x80 + r.Intn(128)))
+				default:
+					sb.WriteByte(byte('a' + r.Intn(26)))
+				}
+			}
+			sb.WriteByte('.')
+		}
+		c03Text(c, "ddd-overflow", sb.String())
+	}
 }
